@@ -235,7 +235,11 @@ type Obligation struct {
 	Extra   []string // extra hypotheses local to this obligation
 }
 
-func (o *Obligation) Query(produceModels bool) string {
+func (o *Obligation) Query(produceModels bool) string { return o.query(produceModels, false) }
+
+// query renders the SMT-LIB text.  The light variant drops every quantified
+// hypothesis (sound: fewer hypotheses); only its unsat answers are used.
+func (o *Obligation) query(produceModels, light bool) string {
 	var b bytes.Buffer
 	if produceModels {
 		b.WriteString("(set-option :produce-models true)\n")
@@ -247,6 +251,9 @@ func (o *Obligation) Query(produceModels bool) string {
 	}
 	b.WriteString(zeroArrayDecls(o))
 	for _, l := range o.ctx.lines[:o.Mark] {
+		if light && strings.HasPrefix(l, "(assert") && (strings.Contains(l, "(forall") || strings.Contains(l, "(exists")) {
+			continue
+		}
 		b.WriteString(l)
 		b.WriteByte('\n')
 	}
@@ -306,15 +313,29 @@ func solveWith(o *Obligation, dir string, timeoutS int, wantModel bool, shift in
 		o.Result = "error: " + err.Error()
 		return
 	}
+	lightFile := ""
+	if o.expect() == "unsat" && strings.Contains(q, "(forall") {
+		lightFile = strings.TrimSuffix(file, ".smt2") + ".light.smt2"
+		if err := os.WriteFile(lightFile, []byte(o.query(false, true)), 0o644); err != nil {
+			lightFile = ""
+		}
+		defer os.Remove(lightFile)
+	}
 	type res struct {
 		solver, verdict, out string
 		dur              float64
 	}
 	ctx, cancel := context.WithCancel(context.Background())
 	defer cancel()
-	ch := make(chan res, len(solvers))
+	runs := append([]solverSpec(nil), solvers...)
+	if lightFile != "" {
+		runs = append(runs, solverSpec{"z3-new/light", func(f string, t int) []string {
+			return []string{"z3-new", fmt.Sprintf("-T:%d", t), lightFile}
+		}})
+	}
+	ch := make(chan res, len(runs))
 	start := time.Now()
-	for _, s := range solvers {
+	for _, s := range runs {
 		s := s
 		go func() {
 			a := s.args(file, timeoutS)
@@ -341,12 +362,15 @@ func solveWith(o *Obligation, dir string, timeoutS int, wantModel bool, shift in
 			case "timeout":
 				v = "timeout"
 			}
+			if s.name == "z3-new/light" && v == "sat" {
+				v = "unknown" // a model of fewer hypotheses means nothing
+			}
 			ch <- res{s.name, v, out.String(), time.Since(t0).Seconds()}
 		}()
 	}
 	o.Outputs = map[string]string{}
 	o.Result = "unknown"
-	for range solvers {
+	for range runs {
 		r := <-ch
 		if len(r.out) > 4000 {
 			r.out = r.out[:4000]
